@@ -87,18 +87,15 @@ def base_name(name: str) -> str:
     return name
 
 
-def sx_desc(expr) -> str:
-    if isinstance(expr, gtirb.SymAddrConst):
-        s = f"C|{base_name(expr.symbol.name)}|{expr.offset}"
-    elif isinstance(expr, gtirb.SymAddrAddr):
-        s = (
-            f"A|{base_name(expr.symbol1.name)}|{base_name(expr.symbol2.name)}"
-            f"|{expr.scale}|{expr.offset}"
-        )
-    else:
-        s = "?|" + type(expr).__name__
+def sx_desc(expr) -> list:
+    """[kind, symbol, addend, attributes, symbol2, scale] (uniform shape)."""
     attrs = ",".join(sorted(a.name for a in expr.attributes))
-    return s + "|" + attrs
+    if isinstance(expr, gtirb.SymAddrConst):
+        return ["C", base_name(expr.symbol.name), int(expr.offset), attrs, "", 0]
+    if isinstance(expr, gtirb.SymAddrAddr):
+        return ["A", base_name(expr.symbol1.name), int(expr.offset), attrs,
+                base_name(expr.symbol2.name), int(expr.scale)]
+    return ["?", type(expr).__name__, 0, attrs, "", 0]
 
 
 def sx_symbols(expr) -> List[gtirb.Symbol]:
@@ -257,7 +254,7 @@ class Projector:
                     tg = ""
                     for x in sxs:
                         if un["o"] <= x["o"] < un["o"] + un["n"]:
-                            tg = x["d"].split("|")[1]
+                            tg = x["d"][1]
                             break
                     un["tg"] = tg
                     un["tgb"] = base_name(tg)
